@@ -61,27 +61,50 @@ macro_rules! is_sync {
 }
 
 // User futures live in separate functions so that nothing about them is left to inference inside
-// the probing function.
+// the probing function. They are deliberately Send but NOT Sync (a Cell lives across an await),
+// and the error / break type is Send but NOT Sync as well: the property only promises Send
+// "whenever ... the caller's futures are Send".
+#[derive(Debug)]
+pub struct SendNotSync(pub std::cell::Cell<u32>);
+
+async fn not_sync_body() {
+    let c = std::cell::Cell::new(0u32);
+    std::future::ready(()).await;
+    c.set(c.get() + 1);
+}
+
 fn user_unit(_f: &TFn) -> impl Future<Output = ()> + Send + 'static {
-    async {}
+    not_sync_body()
 }
 fn user_unit_mut(f: &mut TFn) -> impl Future<Output = ()> + Send + 'static {
     f.runs += 1;
-    async {}
+    not_sync_body()
 }
-fn user_res(_f: &TFn) -> impl Future<Output = Result<(), u32>> + Send + 'static {
-    async { Ok(()) }
+fn user_res(_f: &TFn) -> impl Future<Output = Result<(), SendNotSync>> + Send + 'static {
+    async {
+        not_sync_body().await;
+        Ok(())
+    }
 }
-fn user_res_mut(f: &mut TFn) -> impl Future<Output = Result<(), u32>> + Send + 'static {
+fn user_res_mut(f: &mut TFn) -> impl Future<Output = Result<(), SendNotSync>> + Send + 'static {
     f.runs += 1;
-    async { Ok(()) }
+    async {
+        not_sync_body().await;
+        Ok(())
+    }
 }
-fn user_cf(_f: &TFn) -> impl Future<Output = ControlFlow<u32, ()>> + Send + 'static {
-    async { ControlFlow::Continue(()) }
+fn user_cf(_f: &TFn) -> impl Future<Output = ControlFlow<SendNotSync, ()>> + Send + 'static {
+    async {
+        not_sync_body().await;
+        ControlFlow::Continue(())
+    }
 }
-fn user_cf_mut(f: &mut TFn) -> impl Future<Output = ControlFlow<u32, ()>> + Send + 'static {
+fn user_cf_mut(f: &mut TFn) -> impl Future<Output = ControlFlow<SendNotSync, ()>> + Send + 'static {
     f.runs += 1;
-    async { ControlFlow::Continue(()) }
+    async {
+        not_sync_body().await;
+        ControlFlow::Continue(())
+    }
 }
 
 fn graph() -> FnGraph<TFn> {
@@ -97,6 +120,10 @@ fn main() {
     rows.push(("control.Rc.send", is_send!(Rc::new(1u8))));
     rows.push(("control.u8.send", is_send!(1u8)));
     rows.push(("control.Rc.sync", is_sync!(Rc::new(1u8))));
+    rows.push(("control.error_type.send", is_send!(SendNotSync(std::cell::Cell::new(0)))));
+    rows.push(("control.error_type.sync", is_sync!(SendNotSync(std::cell::Cell::new(0)))));
+    rows.push(("control.user_future.send", is_send!(not_sync_body())));
+    rows.push(("control.user_future.sync", is_sync!(not_sync_body())));
 
     let g = graph();
     rows.push(("FnGraph.send", is_send!(g)));
